@@ -2,6 +2,7 @@ package main
 
 import (
 	"fmt"
+	"sort"
 	"strings"
 	"time"
 
@@ -30,6 +31,7 @@ type wop struct {
 	ts   int64
 	key  string
 	inj  [][]wop
+	pre  []wop // 'D' only: Adds performed after the watermark was received, before it is handled
 }
 
 func (o wop) String() string {
@@ -43,6 +45,13 @@ func (o wop) String() string {
 		return fmt.Sprintf("N %d", o.id)
 	case 'D':
 		var sb strings.Builder
+		if len(o.pre) > 0 {
+			fmt.Fprintf(&sb, "E %d", len(o.pre))
+			for _, a := range o.pre {
+				sb.WriteString(" " + a.String())
+			}
+			sb.WriteString(" ")
+		}
 		fmt.Fprintf(&sb, "D %d", len(o.inj))
 		for _, l := range o.inj {
 			fmt.Fprintf(&sb, " %d", len(l))
@@ -101,6 +110,8 @@ func runWin(w stepWin, ops []wop, keyed bool) string {
 	var inj [][]wop
 	fire := 0
 	injecting := false
+	var held []string // keyed windows: batches of one delivery, printed sorted (Go map order must not matter)
+	holding := false
 	doAdd := func(a wop) {
 		if a.kind == 'A' {
 			if keyed {
@@ -121,13 +132,19 @@ func runWin(w stepWin, ops []wop, keyed bool) string {
 		if rows[0].Slot != nil && rows[0].Slot.Start != nil {
 			s, e = rows[0].Slot.Start.UnixNano(), rows[0].Slot.End.UnixNano()
 		}
+		var bb strings.Builder
 		if keyed {
-			fmt.Fprintf(&sb, " b %s %d %d %d", rowKey(rows[0]), s, e, len(rows))
+			fmt.Fprintf(&bb, " b %s %d %d %d", rowKey(rows[0]), s, e, len(rows))
 		} else {
-			fmt.Fprintf(&sb, " b %d %d %d", s, e, len(rows))
+			fmt.Fprintf(&bb, " b %d %d %d", s, e, len(rows))
 		}
 		for _, r := range rows {
-			fmt.Fprintf(&sb, " %d", rowID(r))
+			fmt.Fprintf(&bb, " %d", rowID(r))
+		}
+		if holding {
+			held = append(held, bb.String())
+		} else {
+			sb.WriteString(bb.String())
 		}
 		if inj != nil && !injecting {
 			k := fire
@@ -150,7 +167,24 @@ func runWin(w stepWin, ops []wop, keyed bool) string {
 			if inj == nil {
 				inj = [][]wop{}
 			}
-			if w.VerifDeliverOne(func(wmk int64) { fmt.Fprintf(&sb, " db %d", wmk) }) {
+			pre := o.pre
+			ok := w.VerifDeliverOne(func(wmk int64) {
+				fmt.Fprintf(&sb, " db %d", wmk)
+				saved := inj
+				inj = nil
+				for _, a := range pre {
+					doAdd(a)
+				}
+				inj = saved
+				holding = keyed
+			})
+			holding = false
+			sort.Strings(held)
+			for _, h := range held {
+				sb.WriteString(h)
+			}
+			held = nil
+			if ok {
 				sb.WriteString(" de")
 			} else {
 				sb.WriteString(" d0")
@@ -158,7 +192,13 @@ func runWin(w stepWin, ops []wop, keyed bool) string {
 			inj = nil
 		case 'X': // drain: deliver until the watermark channel is empty
 			inj = [][]wop{}
-			for w.VerifDeliverOne(func(wmk int64) { fmt.Fprintf(&sb, " db %d", wmk) }) {
+			for w.VerifDeliverOne(func(wmk int64) { fmt.Fprintf(&sb, " db %d", wmk); holding = keyed }) {
+				holding = false
+				sort.Strings(held)
+				for _, h := range held {
+					sb.WriteString(h)
+				}
+				held = nil
 				sb.WriteString(" de")
 			}
 			sb.WriteString(" d0")
